@@ -76,7 +76,7 @@ _RE_COV = re.compile(r'^<(\w+) line \d+, col \d+ to line \d+, col \d+ of module 
 
 def run_tlc(spec, cfg_text, *, workers=None, dump=False, simulate=None, depth=None,
             seed_=None, coverage=False, timeout=1800, env=None, extra=None, deque=False,
-            keep_dir=False, printed=False):
+            keep_dir=False, printed=False, jvm=()):
     """Run TLC on /verif/specs/<spec>.tla with the given cfg text.
 
     simulate: dict(num=..., file=<prefix or None>) -> `-simulate`.
@@ -91,6 +91,7 @@ def run_tlc(spec, cfg_text, *, workers=None, dump=False, simulate=None, depth=No
     jopts = ['-XX:+UseParallelGC', '-Xmx24g']
     if deque:
         jopts.append('-Dtlc2.tool.queue.IStateQueue=StateDeque')
+    jopts += list(jvm)
     cmd = ['java'] + jopts + ['-cp', TLA_JAR + ':' + TLA_DEPS, 'tlc2.TLC',
                                '-config', cfg, '-metadir', meta, '-noGenerateSpecTE',
                                '-workers', str(workers or NPROC)]
